@@ -7,7 +7,7 @@ PROPS = {"C12": "model_checking"}
 
 PROP_INVS = {
     "C12": ["C12_Routing", "C12_Version", "C12_FollowLeader", "C12_FollowLeaderRealTime", "C12_RefreshWithinTTL", "C12_CacheFilter",
-            "C12_HealthyCallSucceeds",
+            "C12_HealthyCallSucceeds", "C12_SplitComplete",
             "C06t_OwnResponse"],
     "C06": ["C06t_OwnResponse", "C06t_NoReuseAfterFailure", "C06t_ReleaseOnlyAfterComplete", "C17t_NoPanicNoHang"],
     "C17": ["C17t_CutIsError", "C17t_NextCallSucceeds", "C17t_NoPanicNoHang", "C06t_NoReuseAfterFailure", "C06t_OwnResponse"],
@@ -24,6 +24,7 @@ GUARDS = {
     "staleCache": ("route", {"C12_GrabIsLatest", "C12_FollowLeader"}),
     "filterAll": ("route", {"C12_CacheFilter"}),
     "keepGroupOnReaddress": ("addr", {"C12_Address"}),
+    "splitWholeToFirst": ("one", {"C12_Routing"}),
     "leakOnClosedGroup": ("addr", {"C09t_ClosedPoolConnsClose"}),
     "stopOnRefreshTimeout": ("live", {"temporal", "C12_RefreshWithinTTL"}),
     "releaseOnFail": ("fault", {"C06t_NoReuseAfterFailure", "C06t_ReleaseOnlyAfterComplete"}),
@@ -241,6 +242,50 @@ def c12_scripts(seed, tier):
         sc.update({"id": "sasl-%d" % si, "kind": "c12", "steps": st})
         out.append(sc)
 
+    # 3e. calls the Transport splits into one sub-request per partition / group / broker, on a cluster where the
+    # sub-requests must go to different brokers: three topics whose partitions have pairwise different leaders
+    def split_cluster(ttl=1500):
+        sc = cluster(ttl=ttl, **layouts[0])
+        sc["topics"] = [{"name": "t1", "leaders": [1, 2]}, {"name": "t2", "leaders": [3, 1]}, {"name": "t3", "leaders": [2, 3]}]
+        return sc
+    def lo(ops, tps):
+        return ops.op("listoffsets", parts=[{"t": t, "p": p, "k": (p + len(t) + i) % 6} for i, (t, p) in enumerate(tps)], mustSucceed=True)
+    pairs = [[("t1", 0), ("t1", 1)], [("t2", 0), ("t2", 1)], [("t3", 0), ("t3", 1)]]       # first-listed partition on broker 1, 3, 2
+    triples = [[("t1", 0), ("t1", 1), ("t2", 0)], [("t2", 0), ("t2", 1), ("t3", 1)], [("t1", 1), ("t3", 0), ("t3", 1)]]
+    six = [(t, p) for t in ("t1", "t2", "t3") for p in (0, 1)]
+    for name, sets in (("2", pairs), ("3", triples), ("6", [six])):
+        ops = Ops()
+        sc = split_cluster()
+        st = []
+        for tps in sets:
+            st += [{"op": lo(ops, tps)}, {"op": lo(ops, tps)}]
+        sc.update({"id": "split-listoffsets-%s" % name, "kind": "c12", "steps": st})
+        out.append(sc)
+    # ... and after the leaders changed
+    ops = Ops()
+    sc = split_cluster(ttl=100)
+    st = [{"op": lo(ops, six)}, {"move": {"kind": "leader", "t": "t1", "p": 0, "to": 3}}, {"move": {"kind": "leader", "t": "t2", "p": 0, "to": 2}},
+          {"waitRefresh": True}, {"op": lo(ops, six)}, {"op": lo(ops, triples[0])}]
+    sc.update({"id": "split-listoffsets-moved", "kind": "c12", "steps": st})
+    out.append(sc)
+    # DescribeGroups over groups with different coordinators, ListGroups over every broker (monitor only)
+    ops = Ops()
+    sc = split_cluster()
+    sc["noconf"] = True
+    gc = {}
+    st = []
+    for rep_ in range(2):
+        for coords in ([1, 2], [3, 1, 2], [2, 2, 3]):
+            o = ops.n + 1
+            groups = ["g-%d-%s" % (o, "abc"[i]) for i in range(len(coords))]
+            for g, b in zip(groups, coords):
+                gc[g] = b
+            st.append({"op": ops.op("describegroups", groups=groups, mustSucceed=True)})
+    st += [{"op": ops.op("listgroups", mustSucceed=True)}, {"op": ops.op("listgroups", mustSucceed=True)}]
+    sc["gcoord"] = gc
+    sc.update({"id": "split-groups", "kind": "c12", "steps": st})
+    out.append(sc)
+
     # 4. metadata from the cache against what the brokers answered, across topic creation and deletion
     ops = Ops()
     sc = cluster(ttl=80)
@@ -382,7 +427,7 @@ def bad_of(out, inv):
 
 
 FIELD_OF = {"C12_Routing": "route", "C12_Version": "version", "C12_FollowLeader": "follow", "C12_FollowLeaderRealTime": "realtime",
-            "C12_RefreshWithinTTL": "refresh", "C12_CacheFilter": "filter", "C12_HealthyCallSucceeds": "nexterr", "C06t_OwnResponse": "own", "C06t_NoReuseAfterFailure": "reuse",
+            "C12_RefreshWithinTTL": "refresh", "C12_CacheFilter": "filter", "C12_HealthyCallSucceeds": "nexterr", "C12_SplitComplete": "split", "C06t_OwnResponse": "own", "C06t_NoReuseAfterFailure": "reuse",
             "C06t_ReleaseOnlyAfterComplete": "pending", "C17t_CutIsError": "cut", "C17t_NextCallSucceeds": "nexterr",
             "C17t_NoPanicNoHang": "hang", "C09t_CancelPrompt": "late", "C09t_ContextError": "ctxerr", "C09t_ClosedPoolConnsClose": "leak"}
 
@@ -469,7 +514,7 @@ def monitor(ctx, scripts, traces, invs, maxviol=60):
     return len(traces)
 
 
-def chunks_of(traces, max_events=350):
+def chunks_of(traces, max_events=200):
     out, cur, n = [], [], 0
     for t in traces:
         if cur and n + len(t) > max_events:
@@ -486,9 +531,10 @@ def conformance(ctx, traces, budget=None, par=12):
     """Trace validation against Transport.tla (TransportTrace.tla). The journals are validated in chunks by
     several TLC processes (one worker each: the high-water mark of the trace spec is per process)."""
     from concurrent.futures import ThreadPoolExecutor
-    budget = budget or (75 if ctx.tier == "quick" else 900)
+    budget = budget or (150 if ctx.tier == "quick" else 900)
     ctx.specdir(ENGINE)
-    chunks = chunks_of([t for t in traces if not t[0].get("died")])
+    # (journals of calls Transport.tla does not describe are judged by the monitor only)
+    chunks = chunks_of([t for t in traces if not t[0].get("died") and not t[0].get("noconf")])
 
     def one(k):
         remaining = list(chunks[k])
@@ -538,12 +584,12 @@ def conformance(ctx, traces, budget=None, par=12):
     return accepted, divs, states
 
 
-def write_mc_cfg(d, name, reqs, menu, conns, moves, cancels, cuts, refresh, expire, closeidle, vtab, kinds="leader add remove topic coord txn ctrlr", bug="none", live=False):
+def write_mc_cfg(d, name, reqs, menu, conns, moves, cancels, cuts, refresh, expire, closeidle, vtab, kinds="leader add remove topic coord txn ctrlr", bug="none", live=False, atomic=True):
     with open(os.path.join(d, name), "w") as f:
         f.write("SPECIFICATION %s\nCONSTANTS\n Brokers <- MC_Brokers\n Boot <- MC_Boot\n Topics <- MC_Topics\n NParts = 2\n Cluster0 <- MC_Cluster0\n" % ("FairSpec" if live else "Spec"))
         f.write(" VTab <- %s\n CRange <- MC_CRange\n Reqs <- %s\n Menu <- %s\n MaxConns = %d\n MaxMoves = %d\n MaxCancels = %d\n MaxCuts = %d\n" % (vtab, reqs, menu, conns, moves, cancels, cuts))
         f.write(" MaxRefresh = %d\n MaxExpire = %d\n MaxCloseIdle = %d\n Hist = %s\n Bug = \"%s\"\n" % (refresh, expire, closeidle, "FALSE" if live else "TRUE", bug))
-        f.write(" AnyConnId = FALSE\n")
+        f.write(" AnyConnId = FALSE\n AtomicRelease = %s\n" % ("TRUE" if atomic else "FALSE"))
         f.write(" MoveKinds = {%s}\n" % ", ".join('"%s"' % k for k in kinds.split()))
         if live:
             f.write("PROPERTIES C12_RefreshWithinTTL\n")
@@ -561,6 +607,8 @@ MC_QUICK = {
     "fault": ("MC_Reqs2", "MC_MenuQ2", 4, 0, 1, 1, 0, 1, 0, "MC_VTabB", ALLK),
     "create": ("MC_Reqs2", "MC_MenuQ3", 4, 0, 0, 0, 1, 0, 0, "MC_VTabA", ALLK),
     "closeidle": ("MC_Reqs2", "MC_MenuQ3", 4, 0, 0, 0, 0, 0, 1, "MC_VTabA", ALLK),
+    # resolving the caller and releasing the connection as two steps (AtomicRelease = FALSE)
+    "release": ("MC_Reqs2", "MC_MenuQ2", 3, 0, 0, 0, 1, 0, 0, "MC_VTabA", "leader"),
 }
 MC_THOROUGH = {
     "addr": ("MC_Reqs2", "MC_MenuQ1", 4, 2, 0, 0, 1, 0, 0, "MC_VTabA", "addr leader"),
@@ -570,6 +618,7 @@ MC_THOROUGH = {
     "fault": ("MC_Reqs2", "MC_MenuQ2", 4, 1, 1, 1, 0, 1, 0, "MC_VTabB", "leader coord"),
     "create": ("MC_Reqs2", "MC_MenuQ3", 4, 1, 0, 0, 1, 0, 0, "MC_VTabA", "ctrlr topic add"),
     "closeidle": ("MC_Reqs2", "MC_MenuQ3", 4, 0, 0, 0, 1, 0, 1, "MC_VTabA", ALLK),
+    "release": ("MC_Reqs2", "MC_MenuQ2", 3, 1, 0, 0, 1, 0, 0, "MC_VTabA", "addr"),
 }
 
 
@@ -582,7 +631,7 @@ def model_check(ctx, guard_names):
     jobs = []
     for name, args in table.items():
         cfg = "MCgen_%s.cfg" % name
-        write_mc_cfg(d, cfg, *args)
+        write_mc_cfg(d, cfg, *args, atomic=not name.startswith("release"))
         jobs.append(("mc", name, cfg))
     live_args = ("MC_Reqs0", "MC_Menu0", 2, 2, 0, 1, 1, 1, 0, "MC_VTabA", ALLK)
     write_mc_cfg(d, "LIVE_refresh.cfg", *live_args, live=True)
@@ -661,7 +710,7 @@ def run(ctx):
         ctx.notes.append("model checking skipped (VERIF_TRANSPORT_NOMC)")
         cov.update({"states": 0, "transitions": 0})
     else:
-        cov.update(model_check(ctx, ["firstBroker", "clientMax", "staleCache", "filterAll", "groupToController", "keepGroupOnReaddress", "stopOnRefreshTimeout"] if ctx.tier == "quick" else list(GUARDS)))
+        cov.update(model_check(ctx, ["firstBroker", "clientMax", "staleCache", "filterAll", "groupToController", "keepGroupOnReaddress", "stopOnRefreshTimeout", "splitWholeToFirst"] if ctx.tier == "quick" else list(GUARDS)))
     scripts = c12_scripts(ctx.seed, ctx.tier)
     traces = run_scripts(ctx, scripts, "c12")
     report(ctx, "C12", cov, scripts, traces, PROP_INVS["C12"])
